@@ -417,6 +417,31 @@ func c19Run(w *W) {
 		w.Count("states", 1)
 		c19Downstream(w, src)
 	})
+	// the generated programs of C05/C18 (deep structures, here-documents in every position, multi-line substitutions)
+	seen := map[string]bool{}
+	derivations(w.thorough(), func(name string, texts []string) {
+		if name == "WN" || name == "D3" && !w.thorough() {
+			return
+		}
+		key := strings.Join(texts, "\x00")
+		if seen[key] || !w.Mine() || w.TimeUp() {
+			seen[key] = true
+			return
+		}
+		seen[key] = true
+		ss := syms(append(append([]string{}, texts...), "\n")...)
+		src := render(ss).src
+		w.Announce(src)
+		w.Count("states", 1)
+		c19Downstream(w, src)
+		if m := gramParse(ss); m.ok {
+			ml := render(multiLine(ss, m)).src
+			if ml != src {
+				w.Announce(ml)
+				c19Downstream(w, ml)
+			}
+		}
+	})
 	// oddities named by the property
 	for _, src := range []string{"\\", "a \\", "''", `""`, "a <<E\nE\n", "a <<E\n\nE\n", "<<E\nE", "$", "a $", "`\\``", "${#}", "${#*}", "${#@}", "x= y=", "a<<''\n\n"} {
 		if w.Mine() {
@@ -453,7 +478,7 @@ func init() {
 		id:    "C19",
 		level: "model_checking",
 		procs: panicnilProcs,
-		rule: "every AST the parser returns for the C01 corpora → Pos()/End() of every node, Fprint under 16 (quick) / 256 (thorough) Configs, Expand of every word of the AST under all 6 modes; " +
+		rule: "every AST the parser returns for the C01 corpora and for the derivation sets D0–D2, DH, word menu in two layouts → Pos()/End() of every node, Fprint under 16 (quick) / 256 (thorough) Configs, Expand of every word of the AST under all 6 modes; " +
 			"all token strings ≤ 4 (quick) / 5 over a 20-token alphabet for Eval; all patterns ≤ 4 / 5 over {a * ? [ ] ! - \\ . : = ^} × 6 subjects × mode combinations for Match; all patterns ≤ 4 / 5 over {a b * ? [ ] / \\ .} for Glob; " +
 			"all 2^14 Option values; nesting depth 1–40 of 5 compound forms × 12 indentation styles; under GODEBUG=panicnil=0 and =1. non-trivial = Eval cases (the only entry point with its own goroutine)",
 		assume: []string{"oracle: no panic, no process death, errors of the documented types (parser.Error, ArithExprError, ParamExpError, NoMatch, *regexp/syntax.Error)",
